@@ -8,7 +8,8 @@ THEOREMS = ["c08_self_or_admin", "c08_admin_only", "c08_other_tokens_need_u2f", 
             "c08_cache_granted_has_source", "c08_login_subject", "c08_case_variant_is_other_user",
             "c08_roles_admin_justified", "c08_roles_admin_has_source", "c08_roles_never_promoted",
             "c08_authorize_is_gate_extra", "c08_gate_and_authorize", "c08_gate_and_authorize_may_act", "c08_obs_cell_is_spec",
-            "c08_rolecert_exact_identity", "c08_rolecert_unconfigured_refused", "c08_rolecert_identity_nonempty"]
+            "c08_rolecert_exact_identity", "c08_rolecert_unconfigured_refused", "c08_rolecert_identity_nonempty",
+            "c08_refresh_identity_is_own", "c08_rolecert_any_path", "c08_refresh_form_identity_refuted", "c08_obs_refresh_cell_is_spec"]
 
 TRUSTED = [
     "checkAuth runs in front of the model: the model starts from the authenticated (user, level) of a valid session cookie or a verified keymaster client-certificate chain (Model/Auth.v is the model of checkAuth, lemma authenticate_is_check_auth relates the two; c08_gate_and_authorize composes the C06 gate model with the handler tests, route by route)",
@@ -61,7 +62,7 @@ def run(ctx):
     export = {os.path.join(core.REPO, "keymasterd/admincache/zz_verif_export.go"):
               os.path.join(core.VERIF, "harness", "admincache", "export.go")}
     ok, result, log = ctx.go_harness("cmd/keymasterd", "TestVerif_C08",
-                                     ["kmd/common.go", "kmd/creds.go", "kmd/consts.go", "kmd/c08.go",
+                                     ["kmd/common.go", "kmd/creds.go", "kmd/consts.go", "kmd/c08.go", "kmd/c08_refresh.go",
                                       os.path.join(ctx.work, "gen", "mux_gen.go")], extra_overlay=export, timeout=1500)
     ok2, result2, log2 = ctx.go_harness("keymasterd/admincache", "TestVerif_C08Cache", ["admincache/c08_cache.go"],
                                         extra_overlay=export, timeout=600)
@@ -78,6 +79,8 @@ def run(ctx):
         if res is not None:
             corr(ctx, res, "c08_mismatches", "response class and stored rows of %s management requests = Model.Authz.step" % res.get("c08_ncases", "?"), "CasesC08.idx")
             model_oracle(ctx, res, "c08_violating", "CasesC08.idx")
+            corr(ctx, res, "c08_refresh_mismatches", "response class, CN of the returned certificate and stored rows of %s requests to /v1/refreshRoleRequestingCert (form identity absent / own / other configured / admin / unknown, body and query, IP-restricted certificate inside / outside its netblock, user certificate, session, none) = Model.Authz.refresh_step" % res.get("c08_refresh_ncases", "?"), "CasesC08Refresh.idx")
+            model_oracle(ctx, res, "c08_refresh_violating", "CasesC08Refresh.idx")
             corr(ctx, res, "c08_trace_mismatches", "answers of IsAdminUser / isAutomationAdmin (direct calls, /users/, /admin/addUser, role-certificate requests) on %s role-lookup histories (clock, directory answers/failures, production cache) = Model.AdminCache.ranswers" % res.get("c08_ntraces", "?"), "CasesC08Trace.idx")
     if result2 is not None:
         res2 = ctx.eval_cases(os.path.join(ctx.work, "CasesC08Cache.v"), "c08_cache_vs_model")
@@ -85,6 +88,6 @@ def run(ctx):
             corr(ctx, res2, "c08_cache_mismatches", "admincache Get/Put on %s op traces under an injected clock = Model.AdminCache.crun" % res2.get("c08_cache_ntraces", "?"), "CasesC08Cache.idx")
     ctx.assumptions = ["the requests of the matrix carry no Origin/Referer header (CSRF handling belongs to C06)",
                        "one IsAdminUser call per request decides the verdict (profileHandler asks a second time only to decide whether to show a link)"]
-    unproved = ["refreshRoleRequestingCert (renewal by the certificate holder itself) is outside this check (C11/C06)"]
+    unproved = ["refresh endpoint: whether the peer address lies inside the presented certificate's netblocks is C11's subject (a certificate presented from outside is 'no credential' in this model); revocation of the presented certificate is not modelled"]
     return ctx.finish("bin/build-coq; coqc Audit_Props_C08/Obl_C08/CasesC08/CasesC08Cache (lib/checks/c08.py); go test -overlay TestVerif_C08 (cmd/keymasterd), TestVerif_C08Cache (keymasterd/admincache)",
                       COMMON_TRUSTED + TRUSTED, unproved)
